@@ -24,6 +24,37 @@ CHECKS = {
         ref='DESIGN.md 3/C17'),
 }
 
+CHECKS.update({
+    'C01': dict(
+        text='The real KFACPreconditioner.step() runs on the shim with all factors, gradients, damping, lr and kl_clip symbolic. '
+             'Inverse method: SPD matrices are parametrised L diag(d) L^T so the inverse is a closed form and z3 proves '
+             '(G+lam I) W (A+lam I) == nu*D. Eigen method: eigh returns unconstrained (d,Q) and z3 proves the gradients equal '
+             'nu*Qg((Qg^T D Qa)/(dg+ x da+ + lam))Qa^T for all real Q,d (both prediv settings), the eigh arguments are the factors, '
+             'and a code-independent bridging lemma ties that formula to G+ V A+ + lam V = D at small shapes. Linear and conv '
+             'layers up to 3x3 / 3x4 combined gradients, single layer plus mixed multi-layer models sharing one clip scale.',
+        note='exact reals (rounding, conditioning-scaled tolerance, half precision numerics outside the claim; dtype is a tag); '
+             'LAPACK by contract stubs; bridging lemma only decided for symbolic Q at 1x1,2x1,1x2 and fixed rational Q up to 3x3',
+        ref='DESIGN.md 3/C01'),
+    'C07': dict(
+        text='The real _compute_grad_scale/update_grad (arbitrary symbolic V installed through the public grad setter) and the full step() '
+             '(uninterpreted inverses) run with symbolic V, D, lr, kl_clip (constant, callable, None). z3 proves: the sqrt argument is '
+             'kl/|sum<V,D>lr^2|, every layer receives the same nu=min(1,r), a zero inner product gives nu=1, None leaves V unscaled and is '
+             'accepted by the constructor, and (lemma) nu^2 lr^2|sum|<=kl. 1-3 layers, linear/conv, bias on/off.',
+        note='sqrt modelled as the exact real root (contract stub); cross-rank agreement of nu is covered by C02',
+        ref='DESIGN.md 3/C07'),
+    'C19': dict(
+        text='The real LambdaParamScheduler drives a real BaseKFACPreconditioner; initial values, step counts, explicit step arguments '
+             'and the six factor functions (uninterpreted Int->Real) are symbolic; scheduled / callable subsets enumerated; <=2 (3) steps. '
+             'z3 proves the multiplicative update at the right step, truncation of the intervals, unscheduled parameters untouched, '
+             'ValueError iff a scheduled parameter is callable, and value/range/monotonicity of exp_decay_factor_averaging.',
+        note='exact reals; int() replaced by an exact symbolic truncation in the module namespace', ref='DESIGN.md 3/C19'),
+    'C20': dict(
+        text='kfac.tracing runs under a symbolic non-decreasing clock; every event sequence over {call f_i returning, call raising, clear} '
+             'of length 4 (5) is executed with symbolic clock readings, return values, average flag and max_history; z3 proves pass-through, '
+             'one sample per completed call, sum/mean over the last max_history samples, and clear.',
+        note='clock stub; max_history >= 1 or None; sync=True exercised in a 2-rank simulated world', ref='DESIGN.md 3/C20'),
+})
+
 NOT_YET = {
 }
 
